@@ -1,0 +1,97 @@
+//! Verification hooks for the roto-filter property (C10; feature
+//! `verif-hooks`, add-only). Mounted as a child module of `rib_unit::unit`
+//! because `RibUnitRunner`'s fields and `filter_payload` are private there.
+//!
+//! Nothing here has behaviour of its own: `mk_runner` builds the runner field
+//! for field as `RibUnitRunner::mock` does under `cfg(test)` but with a
+//! caller-supplied compiled `rib-in-pre` function installed in
+//! `roto_function_pre` (what `RibUnitRunner::new` does with
+//! `component.roto_compiled()`); the rest are plain calls.
+
+use std::sync::Arc;
+
+use arc_swap::ArcSwap;
+
+use super::super::http::PrefixesApi;
+use super::super::statistics::RibMergeUpdateStatistics;
+use super::super::status_reporter::RibUnitStatusReporter;
+use super::{QueryLimits, RibType};
+use crate::common::frim::FrimMap;
+use crate::comms::{Gate, GateAgent};
+use crate::payload::{RotondaRoute, Update};
+use crate::roto_runtime::types::FilterName;
+use crate::roto_runtime::Ctx;
+use crate::tokio::TokioTaskMetrics;
+use crate::tracing::Tracer;
+
+pub use super::super::rib::Rib;
+pub use super::RibUnitRunner;
+
+/// The same type as the crate-private alias `RotoFuncPre`.
+pub type RibInPreFunc =
+    roto::TypedFunc<Ctx, (roto::Val<RotondaRoute>,), roto::Verdict<(), ()>>;
+
+/// A physical RIB unit runner with `roto_function_pre = f`.
+pub fn mk_runner(f: Option<RibInPreFunc>) -> (RibUnitRunner, GateAgent) {
+    let rib_type = RibType::Physical;
+    let (gate, gate_agent) = Gate::new(0);
+    let gate = gate.into();
+    let query_limits =
+        Arc::new(ArcSwap::from_pointee(QueryLimits::default()));
+    let rib = Rib::new_physical();
+    let status_reporter = RibUnitStatusReporter::default().into();
+    let pending_vrib_query_results = Arc::new(FrimMap::default());
+    let filter_name = Arc::new(ArcSwap::from_pointee(FilterName::default()));
+    let _process_metrics = Arc::new(TokioTaskMetrics::new());
+    let rib_merge_update_stats: Arc<RibMergeUpdateStatistics> =
+        Default::default();
+
+    let shared_rib = Arc::new(ArcSwap::new(Arc::new(rib)));
+    let http_processor = Arc::new(PrefixesApi::new(
+        shared_rib.clone(),
+        Arc::new("dummy".to_string()),
+        query_limits.clone(),
+        rib_type,
+        None,
+        pending_vrib_query_results.clone(),
+        Arc::default(), // ingress::Register
+    ));
+    let tracer = Arc::new(Tracer::new());
+
+    let runner = RibUnitRunner {
+        gate,
+        http_processor,
+        query_limits,
+        rib: shared_rib,
+        rib_type,
+        status_reporter,
+        filter_name,
+        pending_vrib_query_results,
+        _process_metrics,
+        rib_merge_update_stats,
+        tracer,
+        roto_function_pre: f,
+        roto_function_post: None,
+    };
+
+    (runner, gate_agent)
+}
+
+/// `RibUnitRunner::process_update`, unchanged.
+pub async fn process_update(
+    runner: &RibUnitRunner,
+    update: Update,
+) -> Result<(), String> {
+    runner.process_update(update).await
+}
+
+/// One turn of the runner's gate command loop (`Gate::process`), so a
+/// harness link can subscribe to the gate the runner publishes on.
+pub async fn gate_process(runner: &RibUnitRunner) {
+    let _ = runner.gate.process().await;
+}
+
+/// The runner's current `Rib`.
+pub fn rib(runner: &RibUnitRunner) -> Arc<Rib> {
+    runner.rib.load().clone()
+}
